@@ -48,7 +48,10 @@ Quoted == { V1(S("\"a b\""), Str(S("a b")), All, FALSE), V1(S("'a b'"), Str(S("a
             V1(S("\"p-") \o LF \o S("  q\""), Str(S("pq")), Folding, FALSE),
             V1(S("\"Jupi-") \o <<13, 10>> \o S("   ter\""), Str(S("Jupiter")), Folding, FALSE),
             V1(S("\"x-") \o LF \o LF \o <<9>> \o S("y z-") \o <<13>> \o S("w\""), Str(S("xy zw")), Folding, FALSE),
-            V1(S("'a") \o <<9>> \o S("b ") \o <<13, 10>> \o S(" c'"), Str(S("a b c")), Folding, FALSE) }
+            V1(S("'a") \o <<9>> \o S("b ") \o <<13, 10>> \o S(" c'"), Str(S("a b c")), Folding, FALSE),
+            \* characters only some character sets have: 7-bit controls (ODL family and the default), Latin-1 (PVL family and the default)
+            V1(S("\"x") \o <<7>> \o S("y") \o <<127>> \o S("\""), Str(S("x") \o <<7>> \o S("y") \o <<127>>), {"ODL", "PDS3", "OMNI"}, FALSE),
+            V1(S("'") \o <<233, 176>> \o S("'"), Str(<<233, 176>>), {"PVL", "ISIS", "OMNI"}, FALSE) }
 Words == { V1(S(x), Str(S(x)), All, FALSE) : x \in {"a", "a_b", "Ab1"} }
     \cup { V1(S(x), Str(S(x)), PvlFam, FALSE) : x \in {"a-b", "N/A", "a:b", "^P", "9a", "a.b", "_a"} }
     \cup { V1(S("x+y"), Str(S("x+y")), {"ISIS", "OMNI"}, FALSE) }
